@@ -48,7 +48,8 @@ STUB = ["event loop + kernel TCP (SimLoop.create_connection, SimStreamTransport)
 ASSUMPTIONS = ["SimStreamTransport is faithful to asyncio's transport contract"]
 REQUIRED_PROBES = ["line_split_across_chunks", "multibyte_split", "invalid_utf8", "eof_mid_line", "eof_clean",
                    "reset_during_blocked_read", "overlong_line", "backpressure_drain_blocked", "connect_failed",
-                   "write_error", "close_error", "use_before_connect", "serial_kind", "tcp_kind", "non_ascii_write"]
+                   "write_error", "close_error", "use_before_connect", "serial_kind", "tcp_kind", "non_ascii_write",
+                   "close_raises_synchronously"]
 SHRINK_LISTS = ("lines", "chunks", "writes", "tapes")
 
 LINES = [b"1;0;1;0;2;1", b"", b"0;255;3;0;9;log", "12;6;1;0;47;ünï".encode(), "7;1;1;0;47;温度".encode(),
@@ -99,7 +100,7 @@ def gen(seed: int, i: int, tier: str) -> dict:
            "extra_reads": rng.choice([0, 1, 2]), "slow": rng.random() < 0.25, "high": rng.choice([4, 16, 64]),
            "consume_at": rng.choice([None, 3.5, 9.5]), "write_error_before": rng.choice([None, None, None, 0, 1]),
            "reset_at": rng.choice([None, None, None, 0.75, 2.75]) if writes else None,
-           "close_error": rng.random() < 0.15, "use_before_connect": rng.random() < 0.1,
+           "close_error": rng.choice([False] * 6 + ["async", "sync"]), "use_before_connect": rng.random() < 0.1,
            "limit": None}
     tapes = {}
     if rng.random() < 0.08:
@@ -411,15 +412,19 @@ def _run(scn, cfg, w, peer, res):
         if not t.done():
             t.cancel()
     loop.run_until_idle(0)
-    if cfg["close_error"]:
+    if cfg["close_error"] == "sync":
+        peer.close_raises = OSError(9, "sim: bad file descriptor on close")
+    elif cfg["close_error"]:
         peer.close_error = OSError(5, "sim: I/O error on close")
     t = run_coro(tr.disconnect())
     if not t.done():
         res.violate(PROP, "disconnect", "hang", "")
     elif t.exception() is not None:
         res.violate(PROP, "disconnect", f"raised:{exc_name(t.exception())}", repr(t.exception())[:200])
-    elif cfg["close_error"] and w.faults.get("stream_close_error"):
+    elif cfg["close_error"] and (w.faults.get("stream_close_error") or w.faults.get("stream_close_raises")):
         res.probes["close_error"] += 1
+        if w.faults.get("stream_close_raises"):
+            res.probes["close_raises_synchronously"] += 1
     # ---- probes ----
     off = 0
     bounds = set()
